@@ -7,6 +7,10 @@ import FeatModel.Lemmas.C14Rat
 import FeatModel.Lemmas.C14Subdiv
 import FeatModel.Lemmas.C14TensorQ
 import FeatModel.Lemmas.C14Refine1D
+import FeatModel.Lemmas.C14RefineCube
+import FeatModel.Lemmas.C14Det
+import FeatModel.Lemmas.C14SimplexScalar
+import FeatModel.Lemmas.C14Cover
 import Mathlib.Tactic.IntervalCases
 /-!
 # C14 — every named cubature rule is exact up to its nominal polynomial degree; unknown names are refused
@@ -291,10 +295,26 @@ theorem C14.refine_keeps_degree_interval (s : Shape) (hs : s = .s1 ∨ s = .h1) 
   · exact refine_exact_1d true Gen.refMapsS1 (by decide) shape_1d_s1 subdiv_s1 t ht d H k
   · exact refine_exact_1d false Gen.refMapsH1 (by decide) shape_1d_h1 subdiv_h1 t ht d H k
 
-/-- what is NOT proved (the gap): the refinement theorem for degrees beyond `refineDegreeBound` on the shapes of
-    dimension ≥ 2 — triangles d > 20, tetrahedra d > 8 (no rule of these shapes has a larger nominal degree),
-    squares d > 16, cubes d > 8 (tensor rules of larger degree exist: covered by the `exactq`/`exhaustive`
-    correspondence streams and the oracle only).  Intervals are done for all d (`C14.refine_keeps_degree_interval`). -/
+/-- Refinement keeps EVERY degree on hypercubes of every dimension 1–3 and on the interval simplex — no degree
+    bound, no finite check: for every rule on Hypercube<1..3> or Simplex<1>, every `d` and every number `k` of
+    refinements, exactness up to total degree `d` survives `refine*k`.  (The child maps of the hypercube refineries are
+    diagonal, so the expansion of a pulled-back monomial factorises over the coordinates and the subdivision identity
+    reduces to the one-dimensional one, which is proved for all degrees.) -/
+theorem C14.refine_keeps_every_degree (s : Shape) (hs : s = .s1 ∨ s = .h1 ∨ s = .h2 ∨ s = .h3) (t : DyTable)
+    (d k : Nat) (ht : t.wf s.dim = true)
+    (H : ∀ e : List Nat, e.length = s.dim → esum e ≤ d → t.momentQ e = refIntQ s.simplex e) :
+    ∀ e : List Nat, e.length = s.dim → esum e ≤ d →
+      (t.refine (Gen.refMapsOf s) k).momentQ e = refIntQ s.simplex e := by
+  rcases hs with rfl | rfl | rfl | rfl
+  · exact refine_exact_1d true Gen.refMapsS1 (by decide) shape_1d_s1 subdiv_s1 t ht d H k
+  · exact refine_exact_1d false Gen.refMapsH1 (by decide) shape_1d_h1 subdiv_h1 t ht d H k
+  · exact refine_exact_h2 t ht d H k
+  · exact refine_exact_h3 t ht d H k
+
+/-- what is NOT proved (the gap): the refinement theorem for triangles beyond degree 20 and tetrahedra beyond degree
+    8 — no rule of these shapes has a larger nominal degree, so every rule the factories can create IS covered by
+    `C14.refine_keeps_degree` (bounded, kernel-checked subdivision identity) — but an arbitrary user rule of higher
+    degree is not.  Intervals, squares and cubes are done for all degrees (`C14.refine_keeps_every_degree`). -/
 def C14.RefineKeepsDegreeUnbounded : Prop :=
   ∀ (s : Shape) (t : DyTable) (d k : Nat), t.wf s.dim = true →
     (∀ e : List Nat, e.length = s.dim → esum e ≤ d → t.momentQ e = refIntQ s.simplex e) →
@@ -399,6 +419,63 @@ theorem C14.scalar_driver_degrees (s : Shape) (hs : s = .h1 ∨ s = .s1) :
       rcases hs with rfl | rfl <;> decide +kernel
     obtain ⟨t, a, _, c⟩ := C14.driver_degree s _ 0 1 (by decide) hp
     exact ⟨t, a, hdim ▸ c⟩
+
+/-- SIMPLEX-SCALAR rules (the `scalar:` factories of Simplex<1>): the rule `t.simplexScalar` (weights halved, points
+    `x ↦ (x+1)/2`) built from ANY generated interval rule `t` of nominal degree `d` integrates `x^k` over `[0,1]`,
+    `k ≤ d`, with error at most `2^-41` — the transformation keeps the degree and even halves the error. -/
+theorem C14.simplex_scalar_exact (t : DyTable) (ht : t ∈ tablesOf .h1) :
+    ∃ d, nominal t.fac t.n = some d ∧ t.simplexScalar.ExactQ true 1 d (tolQ / 2) := by
+  obtain ⟨d, hd, hx⟩ := C14.tables_exact .h1 t ht
+  exact ⟨d, hd, simplexScalar_exactQ t (C14.tables_wellformed .h1 t ht).1 d tolQ ((exactTo_iff t false 1 d).1 hx)⟩
+
+/-- Refineries, structural facts (independent of any polynomial degree), for every shape: there are 2^d (hypercube)
+    resp. 2 / 4 / 12 (simplex) children; the weight factor `c/2^ce` of EVERY child is positive and equals the absolute
+    determinant of the child's affine map `x ↦ (b + A x)/2^ae` (read off the generated child maps, which the dump
+    obtains by running the real refinery on the cell's vertices); and the factors sum to one (the children's volumes
+    add up to the parent's). -/
+theorem C14.refinery_structure (s : Shape) :
+    childWeightsAreDets s.dim (Gen.refMapsOf s) = true ∧ childrenTile (Gen.refMapsOf s) = true ∧
+      (Gen.refMapsOf s).maps.length = childCount s := by
+  have h := refinery_structure_all
+  cases s <;> (simp only [List.all_cons, List.all_nil, Bool.and_eq_true, beq_iff_eq, Bool.and_true] at h; tauto)
+
+/-- ... and the determinant condition is what excludes the seeded defect of round 3: exchanging the volume fractions
+    1/8 and 1/16 among the tetrahedron's children violates it (no moment has to be computed to see that). -/
+theorem C14.swapped_child_weights_rejected :
+    childWeightsAreDets 3 { Gen.refMapsS3 with
+      maps := Gen.refMapsS3.maps.map fun m => { m with c := if m.c = 2 then 1 else 2 } } = false :=
+  swapped_tetra_weights_rejected
+
+/-- The auto-degree alias is a TOTAL function onto existing rules, for every shape, both configurations and EVERY
+    requested degree (also beyond the advertised maximum, where the code answers with its largest rule instead of
+    refusing): `AutoDegree::choose(d)` always names a rule of the shape's factory list that has a nominal degree. -/
+theorem C14.auto_degree_total (pfx : Bool) (s : Shape) (d : Nat) :
+    ∃ f n k, createBase pfx (Gen.factoriesOf s) (autoChoose pfx s d) = some (f, n) ∧ nominal f.name n = some k := by
+  have hall := List.all_eq_true.1 autoTargetsExist_all s (mem_allShapes s)
+  rw [Bool.and_eq_true] at hall
+  have hc : autoTargetsExist pfx s = true := by cases pfx; exact hall.1; exact hall.2
+  unfold autoTargetsExist at hc
+  have h := List.all_eq_true.1 hc _ (autoChoose_mem_targets pfx s d)
+  split at h
+  · rename_i f n hb
+    cases hk : nominal f.name n with
+    | none => simp [hk] at h
+    | some k => exact ⟨f, n, k, hb, hk⟩
+  · simp at h
+
+/-- Coverage: EVERY rule the factories can create — every driver of every shape with every admissible point count —
+    is covered by a theorem: its table is generated (then `C14.tables_exact` / `C14.driver_degree` give its nominal
+    degree), or it is a tensor-product rule whose scalar table is generated (then `C14.tensor_exact` does).  The
+    second case applies to 9 rules of Hypercube<2> (gauss-legendre:12..20) and 20 of Hypercube<3>, to nothing else:
+    Dunavant, Shunn–Ham, Lauffer, Hammer–Stroud, Silvester, barycentre and trapezoidal tables are all generated. -/
+theorem C14.every_rule_covered (s : Shape) (f : Factory) (n : Nat) (hf : f ∈ Gen.factoriesOf s)
+    (hlo : f.minP ≤ n) (hhi : n ≤ f.maxP) : ruleCovered s f n = true := by
+  have hall := List.all_eq_true.1 allRulesCovered_all s (mem_allShapes s)
+  unfold allRulesCovered at hall
+  have h1 := List.all_eq_true.1 hall f hf
+  have h2 := List.all_eq_true.1 h1 (n - f.minP) (by simp; omega)
+  have hn : f.minP + (n - f.minP) = n := by omega
+  rwa [hn] at h2
 
 /-- hypotheses are satisfiable by non-trivial values: the 79-point rule `dunavant:20` is a generated table -/
 example : ∃ t ∈ tablesOf .s2, t.fac = "dunavant".toList ∧ t.n = 20 ∧ t.w.length = 79 := by decide +kernel
